@@ -5,6 +5,99 @@ from . import totality
 PID = 'C01'
 
 
+# ------------------------------------------------------------------ C01.6 degree of retained memory
+OWNED_LEAF = re.compile(r'(String::from_utf8(_lossy)?$|::to_owned$|::to_vec$|::to_string$|decode_without_bom_handling\w*$|::into_owned$|^std::string::String::from$'
+                        r'|slice::<impl \[T\]>::to_vec$|Iterator::collect$|^std::vec::from_elem$|Vec::extend_from_slice$|String::push_str$)')
+GROW_LEAF = re.compile(r'(std::vec::Vec::push$|std::collections::\w+::insert$|std::collections::btree_map::\w+::insert$|std::vec::Vec::extend$|Vec::insert$)')
+ITER_ADAPTOR = re.compile(r'Iterator::(map|filter_map|flat_map|for_each|fold|filter|take_while|map_while|scan|inspect|find_map)$')
+# loops whose trip count is bounded by a constant of the format, not by the file (one line of reason each)
+CONST_LOOPS = {
+    "<minidump::MinidumpMacCrashInfo as minidump::MinidumpStream<'_>>::read": 'iterates header.records, a fixed array of 8 location descriptors, and 0..num_strings() of the record layout (at most 6)',
+}
+
+
+def memory_degree(res, prog):
+    """C01.6: "memory use is at most quadratic in the input size".  Every stream reader gets a degree: a copy of
+    file-controlled length (a String / Vec made from file bytes) counts 1, a container grown once per iteration counts 0,
+    and each enclosing loop whose trip count comes from the file - in the reader or in any function between it and the
+    copy, following calls and iterator-chain closures - adds 1.  Bytes are located through RVAs that the file chooses,
+    so nothing prevents every iteration from citing the same bytes: the degree is the exponent of the memory bound.
+    It must not exceed 2."""
+    res.rule('C01.6', 0, floor=20, note='degree of retained memory per stream reader (loops from the file around copies of file-controlled length) is at most 2')
+    fns = {}
+    for cn in ('minidump', 'minidump_common'):
+        for f in prog.crate(cn).fns:
+            fns[f.path] = f
+    memo = {}
+
+    def callee_fn(t):
+        return fns.get(t.get('fn')) or fns.get(strip_generics(t.get('fn') or ''))
+
+    def deg(f, stack=()):
+        if f.path in memo:
+            return memo[f.path]
+        if f.path in stack:
+            return (0, [])
+        stack = stack + (f.path,)
+        loops = {} if f.path in CONST_LOOPS else f.loops()
+
+        def k_of(b):
+            return sum(1 for h, body in loops.items() if b in body)
+        best = (0, [])
+        in_chain = set()
+        for b, t in f.calls():
+            d = strip_generics(t.get('decl') or t.get('fn') or '')
+            if ITER_ADAPTOR.search(d):
+                for a in t['args']:
+                    for n in walk(f.expand(f.operand_tree(a))):
+                        if isinstance(n, tuple) and n and n[0] == 'closure':
+                            in_chain.add(n[1])
+        for b, t in f.calls():
+            n = f.callee(t) or ''
+            k = k_of(b)
+            g = callee_fn(t)
+            cand = None
+            if g is not None and g.kind in ('fn', 'method') and not (g.mac and g.mac.startswith('derive(')):
+                d, path = deg(g, stack)
+                if path:
+                    cand = (k + d, ['%s [%d loop(s)] calls' % (f.path, k)] + path)
+            elif OWNED_LEAF.search(n) and re.search(r'String|Vec<|Cow<', t.get('rty') or 'String'):
+                cand = (k + 1, ['%s [%d loop(s)] copies via %s' % (f.path, k, n.split('::')[-1])])
+            elif GROW_LEAF.search(n) and k:
+                cand = (k, ['%s [%d loop(s)] grows a container' % (f.path, k)])
+            if cand and cand[0] > best[0]:
+                best = cand
+        for b in sorted(f.reach):
+            for s_ in f.blocks[b]['s']:
+                if s_['k'] == 'assign' and s_['rv']['k'] == 'agg' and s_['rv'].get('ak') == 'closure':
+                    g = fns.get(s_['rv'].get('def'))
+                    if g is None:
+                        continue
+                    d, path = deg(g, stack)
+                    if not path:
+                        continue
+                    k = k_of(b) + (1 if g.path in in_chain else 0)
+                    cand = (k + d, ['%s [%d loop(s)%s] runs closure' % (f.path, k_of(b), ', iterator chain' if g.path in in_chain else '')] + path)
+                    if cand[0] > best[0]:
+                        best = cand
+        memo[f.path] = best
+        return best
+    n = 0
+    for pth, f in sorted(fns.items()):
+        if not re.search(r"as minidump::MinidumpStream<'.*>>::read$", pth):
+            continue
+        n += 1
+        res.rule('C01.6', 1)
+        d, path = deg(f)
+        if d > 2:
+            res.violation('C01.6', 'C01.6|degree|%s' % re.sub(r"<'\w+>|<'_>", '', pth), f, f.line, 'retained memory of degree %d in the input size: %s' % (d, ' -> '.join(path)[:700]))
+        else:
+            res.sample({'rule': 'C01.6', 'reader': pth[:90], 'degree': d}) if len(res.samples) < 40 else None
+    if n < 20:
+        res.error('C01.6', 'only %d stream readers found' % n)
+    res.extra['const_bounded_loops_reviewed'] = CONST_LOOPS
+
+
 def run(tier, t0):
     res = harness.Result(PID)
     prog = program()
@@ -19,6 +112,7 @@ def run(tier, t0):
         totality.clippy_crosscheck(res, prog, fns, 'C01.1')
     totality.run_loops(res, prog, fns, 'C01.2', floor_l3=2)
     totality.run_allocs(res, prog, fns, 'C01.3', floor=12)
+    memory_degree(res, prog)
     res.extra['derive_generated_functions_skipped'] = derived
     res.assumptions += [
         'usize is 64 bits wide (interval rule D2)',
